@@ -1,3 +1,5 @@
+mod api;
+mod apigen;
 mod handle;
 mod names;
 mod timeconv;
@@ -49,6 +51,36 @@ fn main() {
                 for x in &v {
                     println!("ORACLE {}", x);
                 }
+            }
+        }
+        "api" => {
+            let ops = arg(&args, "--ops").unwrap();
+            let imp = arg(&args, "--impl").unwrap();
+            let violations = if let Some(r) = arg(&args, "--replay") {
+                if r != ops {
+                    std::fs::copy(r, ops).ok();
+                }
+                apigen::replay(ops, imp)
+            } else {
+                let cfg = apigen::GenCfg {
+                    names_valid_only: !args.iter().any(|a| a == "--invalid-names"),
+                    reopen_pct: arg_u64(&args, "--reopen-pct", 5),
+                    max_depth: arg_u64(&args, "--max-depth", 3) as usize,
+                    handle_ops: false,
+                    meta_ops: !args.iter().any(|a| a == "--no-meta"),
+                    refusal_bias: args.iter().any(|a| a == "--refusals"),
+                };
+                let o = apigen::campaign(arg_u64(&args, "--seed", 1), arg_u64(&args, "--count", 100), arg_u64(&args, "--max-ops", 40), &cfg, ops, imp, arg(&args, "--snapdir"));
+                println!("STAT histories {}", o.histories);
+                println!("STAT ops {}", o.ops);
+                println!("STAT distinct {}", o.distinct.len());
+                for (k, n) in &o.hist {
+                    println!("HIST {} {}", k, n);
+                }
+                o.violations
+            };
+            for v in &violations {
+                println!("ORACLE {}", v);
             }
         }
         "upper-dump" => names::upper_dump(arg(&args, "--out").unwrap()),
